@@ -50,6 +50,7 @@ func loadExtremes(c *vlib.Ctx) ([]ext, []string) {
 
 type ledgerStats struct {
 	mu              sync.Mutex
+	heavyMu         sync.Mutex       // entries that may take long run one at a time (so that a hang is found once, not by every goroutine at once)
 	mutants         int64            // mutants executed (raw + sealed)
 	notApplicable   int64            // (entry, transaction) pairs the entry does not apply to
 	perEntry        map[string]int64 // entry point -> executions
@@ -164,6 +165,10 @@ func mutateBlock(c *vlib.Ctx, st *ledgerStats, exts []ext, sim *chain.Sim, g *gu
 		if tg.abs != nil {
 			shape = fmt.Sprintf("v%d:%s", tg.abs.Ver, tg.abs.Tag)
 		}
+		if strings.Contains(e.X, "40000") {
+			st.heavyMu.Lock()
+			defer st.heavyMu.Unlock()
+		}
 		st.mu.Lock()
 		skip := st.hung[e.class()]
 		if skip {
@@ -224,6 +229,29 @@ func mutateBlock(c *vlib.Ctx, st *ledgerStats, exts []ext, sim *chain.Sim, g *gu
 				if site == "" {
 					site = lo.Entry
 				}
+				rep := e
+				if e.Fam == "cur2" && !lo.O.TimedOut {
+					// minimal reproduction: does one of the two extremes alone fail at the same place?
+					for _, one := range []ext{{Fam: "cur", Ver: e.Ver, T: e.T, Need: e.Need, X: e.X}, {Fam: "cur", Ver: e.Ver, T: e.T2, Need: e.Need2, X: e.X2}} {
+						if one.T == "payout" {
+							one.Ver = 0
+						}
+						m1 := &mctx{sim: sim, cs: a.Prev, child: child, ver: tg.ver, k: tg.k, abs: tg.abs, keys: keys, created: created}
+						m1.b, m1.bs = cloneBlock(a.Block, a.Supp)
+						if !m1.apply(one) {
+							continue
+						}
+						if sealed {
+							m1.resign()
+							m1.reseal()
+						}
+						if l1 := m1.exercise(g, func(string, bool) {}); l1 != nil && l1.O.Panic != "" && ledgerSite(l1.O.Stack) == site {
+							rep, m, lo = one, m1, l1
+							break
+						}
+					}
+				}
+				e := rep
 				key := "ledger/" + site + "/" + e.class()
 				how := "as is"
 				if sealed {
